@@ -60,6 +60,9 @@ def match(pat: ast.AST, node: ast.AST, b: dict[str, str]) -> bool:
         key = pat.id[len(_MV):]
         if key == "_":
             return True
+        loc = b.get("__locals__")
+        if loc is not None and node.id not in loc:
+            return False  # a renamed temporary is still a temporary: never a parameter, a global or a builtin
         return b.setdefault(key, node.id) == node.id
     if type(pat) is not type(node):
         return False
@@ -141,6 +144,7 @@ class Scope:
 
     def __init__(self, fi) -> None:
         fixed = set(_BUILTINS)
+        self.params = frozenset(fi.params())
         f = fi
         while f is not None:
             a = f.node.args
@@ -168,6 +172,13 @@ class Scope:
             elif isinstance(n, ast.arg):
                 present.add(n.arg)
         self.fixed = frozenset(fixed | present)
+        stored = set()
+        for n in ast.walk(top.node):
+            if isinstance(n, ast.Name) and isinstance(n.ctx, (ast.Store, ast.Del)):
+                stored.add(n.id)
+            elif isinstance(n, ast.ExceptHandler) and n.name:
+                stored.add(n.name)
+        self.locals = frozenset(stored - set(_BUILTINS))
 
 
 _parse_cache: dict[str, ast.AST | None] = {}
@@ -194,9 +205,12 @@ def _parse_any(text: str) -> ast.AST | None:
 
 
 
-def _probe(text: str, scope: Scope) -> ast.AST | None:
-    """The probe text as a pattern: temporaries become metavariables."""
-    cache = scope.__dict__.setdefault("_probes", {})
+def _probe(text: str, scope: Scope, bare: bool = False) -> ast.AST | None:
+    """The probe text as a pattern: temporaries become metavariables. A probe
+    that is nothing but one vanished identifier is a pattern only for equality
+    (`c.subject == "pos"`: the subject is *a* temporary), never for containment
+    (where it may be a fragment of an attribute name)."""
+    cache = scope.__dict__.setdefault("_probes_bare" if bare else "_probes", {})
     if text in cache:
         return cache[text]
     node = _parse_any(text)
@@ -211,15 +225,15 @@ def _probe(text: str, scope: Scope) -> ast.AST | None:
         if isinstance(n, ast.Name) and n.id not in scope.fixed:
             n.id = _MV + n.id
             free = True
-    if isinstance(node, ast.Name):
-        free = False  # a bare identifier says nothing once its name is a wildcard: exact text only
+    if isinstance(node, ast.Name) and not bare:
+        free = False
     cache[text] = node if free else None  # no temporaries: exact text already decided it
     return cache[text]
 
 
-def _match_somewhere(pat: ast.AST, root: ast.AST) -> bool:
+def _match_somewhere(pat: ast.AST, root: ast.AST, locals_: frozenset) -> bool:
     for n in ast.walk(root):
-        if type(n) is type(pat) and match(pat, n, {}):
+        if type(n) is type(pat) and match(pat, n, {"__locals__": locals_}):
             return True
     return False
 
@@ -243,11 +257,11 @@ class S(str):
         r = str.__eq__(self, other)
         if r is True or self.scope is None or not isinstance(other, str) or isinstance(other, S):
             return r
-        pat = _probe(other, self.scope)
+        pat = _probe(other, self.scope, bare=True)
         tree = self._tree()
         if pat is None or tree is None or type(pat) is not type(tree):
             return False
-        return match(pat, tree, {})
+        return match(pat, tree, {"__locals__": self.scope.locals})
 
     def __ne__(self, other) -> bool:  # type: ignore[override]
         return not self.__eq__(other)
@@ -263,7 +277,7 @@ class S(str):
         tree = self._tree()
         if pat is None or tree is None:
             return False
-        return _match_somewhere(pat, tree)
+        return _match_somewhere(pat, tree, self.scope.locals)
 
     def split(self, *a, **k):  # type: ignore[override]
         return [S(x, self.scope) for x in str.split(self, *a, **k)]
